@@ -79,6 +79,12 @@ func (vc *VC) call(st *State, in ssa.Instruction, c *ssa.CallCommon) Val {
 		if con, ok := vc.W.DB.ByKey[name]; ok {
 			return vc.applyContract(st, con, name, append([]Val{recv}, args...), methodParamNames(c.Method, true), resT, in.Pos())
 		}
+		if named, ok := c.Value.Type().(*types.Named); ok && named.Obj().Pkg() != nil {
+			alt := named.Obj().Pkg().Path() + ".(" + named.Obj().Name() + ")." + c.Method.Name()
+			if con, ok := vc.W.DB.ByKey[alt]; ok {
+				return vc.applyContract(st, con, alt, append([]Val{recv}, args...), methodParamNames(c.Method, true), resT, in.Pos())
+			}
+		}
 		return vc.havocCall(st, name, args, resT, true)
 	}
 	callee := c.StaticCallee()
@@ -408,6 +414,20 @@ func (vc *VC) applyContract(st *State, con *Contract, name string, args []Val, p
 		vc.addObl("pre", fmt.Sprintf("pre@%s#%d.%d", short, site, cl.Index), st, g, pos, nil, "precondition of "+name+": "+cl.Text)
 		st.assume(vc, g)
 	}
+	// the callee's declared panic conditions must be excluded here, or be among the caller's own declared ones
+	for _, cl := range con.Of("panics-when") {
+		pw := vc.specBool(env, cl)
+		var allowed []string
+		if vc.depth == 0 && vc.Con != nil {
+			cenv := vc.entryEnv(vc.entry.clone())
+			for _, ccl := range vc.Con.Of("panics-when") {
+				allowed = append(allowed, vc.specBool(cenv, ccl))
+			}
+		}
+		g := Or(append([]string{Not(pw)}, allowed...)...)
+		vc.addObl("pre", fmt.Sprintf("pre@%s#%d.p%d", short, site, cl.Index), st, g, pos, nil, "callee "+name+" panics when "+cl.Text)
+		st.assume(vc, Not(pw))
+	}
 	// havoc the callee's frame
 	ms := vc.evalModifies(env, con.Of("modifies"))
 	vc.havocModSet(st, pre, ms, true)
@@ -529,6 +549,16 @@ func (vc *VC) addModItem(env *Env, ms *ModSet, item string) {
 		ms.Ghost[item] = true
 		return
 	}
+	if strings.HasPrefix(item, "region(") && strings.HasSuffix(item, ")") {
+		r := env.eval(item[7 : len(item)-1])
+		ms.Regions = append(ms.Regions, modRegion{r.S, "(- 4611686018427387904)", "4611686018427387904", ""})
+		return
+	}
+	if strings.HasPrefix(item, "output(") && strings.HasSuffix(item, ")") {
+		r := env.eval(item[7 : len(item)-1])
+		ms.Outputs = append(ms.Outputs, r.S)
+		return
+	}
 	if strings.HasPrefix(item, "stream(") && strings.HasSuffix(item, ")") {
 		r := env.eval(item[7 : len(item)-1])
 		ms.Streams = append(ms.Streams, r.S)
@@ -619,6 +649,23 @@ func (vc *VC) havocModSet(st *State, pre *State, ms *ModSet, allowFreshWrites bo
 				st.heap[n] = vc.fresh("Hc_"+n, specSort(d.Sorts[0]))
 			}
 		}
+	}
+	if len(ms.Outputs) > 0 {
+		wl := vc.heapGet(st, "G_wlen", "(Array Int Int)")
+		wd := vc.heapGet(st, "G_wdata", "(Array Int (Array Int Int))")
+		for _, w := range ms.Outputs {
+			nl := vc.fresh("wlen", "Int")
+			old := vc.name("oldw", "(Array Int Int)", Sel(wd, w))
+			na := vc.fresh("wd", "(Array Int Int)")
+			cur := vc.name("wl", "Int", Sel(wl, w))
+			st.assume(vc, Le(cur, nl))
+			// bytes already written never change
+			vc.define(fmt.Sprintf("(forall ((i Int)) (! (=> (< i %s) (= (select %s i) (select %s i))) :pattern ((select %s i))))", cur, na, old, na))
+			wl = Sto(wl, w, nl)
+			wd = Sto(wd, w, na)
+		}
+		vc.heapSet(st, "G_wlen", "(Array Int Int)", wl)
+		vc.heapSet(st, "G_wdata", "(Array Int (Array Int Int))", wd)
 	}
 	if len(ms.Streams) > 0 {
 		vc.streamDecls()
